@@ -46,6 +46,7 @@ afbe218 C20 VerifC20_SaveLoad
 9b089c3 C02 VerifC02_CrashDuringMaintenance
 11ad072 C12 VerifC12_RangeCompaction
 d15e1f5 C12 VerifC12_CompactionInWorkload
+6334d95 C07 VerifC07_RegistryPairs
 LIST
 echo ALLDONE >> $out
 (cd /repo && git worktree remove --force $wt)
